@@ -26,7 +26,7 @@ def run(res):
     def compute():
         cells = [c for c in matrix.cells(targets=NONCOPY, mismatches=False)]
         if res.tier == "quick":
-            cells = [c for i, c in enumerate(cells) if c[2] in ("root", "root_call", "root_field_expr", "root_deref", "root_ref", "field", "some", "slice_elem", "depth3") or i % 4 == 0]
+            cells = [c for i, c in enumerate(cells) if c[2] in ("root", "root_via_macro", "root_call", "root_field_expr", "root_deref", "root_ref", "field", "some", "slice_elem", "depth3") or i % 4 == 0]
         srcs = []
         for (t, f, pos, pat, m) in cells:
             srcs.append(matrix.program(t, pos, pat, reuse=False))
